@@ -11,3 +11,10 @@ Theorem C20_box_certificate : forall (Q1 Q2 : Type) (E1 : EqDec Q1) (E2 : EqDec 
   (A : enfa Q1) (B : enfa Q2) (n : nat), enfa_equiv A B n = Some true -> lang_eq A B.
 Proof. exact (@enfa_equiv_sound). Qed.
 Print Assumptions C20_box_certificate.
+
+(* tie to the source: the epsilon spellings of from_text and the renaming suffix, regenerated from cfg/cfg.py on every build *)
+From PFL Require Import Gen.PyConst Proofs.GenTieC20.
+Theorem C20_text_constants_from_source :
+  In (101%N :: 112%N :: 115%N :: 105%N :: 108%N :: 111%N :: 110%N :: nil) cfg_EPSILON_SYMBOLS /\ In (36%N :: nil) cfg_EPSILON_SYMBOLS.
+Proof. split; [exact (proj1 cfg_text_constants)|exact (proj1 (proj2 cfg_text_constants))]. Qed.
+Print Assumptions C20_text_constants_from_source.
